@@ -17,6 +17,7 @@ import JumanjiModel.Env.MultiCVRP.BoundsF32Lemmas
 import JumanjiModel.Env.MultiCVRP.ReturnLemmas
 import JumanjiModel.Env.MultiCVRP.Episode
 import JumanjiModel.Env.MultiCVRP.Generator
+import JumanjiModel.Env.MultiCVRP.Spec
 open Jm MultiCVRP
 
 /-- a non-trivial state (3 customers, 2 vehicles of capacity 5, after one step): vehicle 0 has served
@@ -138,6 +139,157 @@ theorem multicvrp_local_times_roundF32_counterexample :
 theorem multicvrp_step_bInv_roundF32_false :
     ¬ ∀ (c : Cfg) (L : Lim) (D : Dist) (s : State) (a : List Nat), DistOK L D → BInv c L s →
         BInv c L (step Jx.roundF32 c D s a).1 := MultiCVRP.step_bInv_roundF32_false
+/-! #### (wave 4) membership in the DECLARED specs: structure, shapes, dtypes and bounds -/
+open Sp PzS PkS
+
+/-- the generator's ranges of the catalogue configuration `multicvrp-6x2` (`UniformRandomGenerator(num_customers=6,
+num_vehicles=2)`: the paper's scenario) and `dmax = 7241/512 ≥ 10·√2`, a bound on one travel distance with a short significand -/
+def lim6x2 : Lim :=
+  { mapMax := 10, demandMax := 10, maxStart := 10, windowLen := 20, coefEarlyMax := 1 / 5, coefLateMax := 1, dmax := 7241 / 512 }
+
+/-- the model's `obsSpec` / `actionSpec` / reward and discount specs ARE the specs generated from the real spec objects
+(Gen/Specs.lean) for the catalogue configuration `multicvrp-6x2`: paths `nodes.{coordinates,demands}`, `windows.{start,end}`,
+`coeffs.{early,late}`, `vehicles.{coordinates,local_times,capacities}`, `action_mask` in this order; shapes `(N+1, 2)`,
+`(N+1,)` ×5, `(V, 2)`, `(V,)` ×2, `(V, N+1)`; dtypes float32 / int16 / bool; maxima `map_max`, `max_capacity`,
+`max_end_window` (both window leaves), `late_coef_rand[-1]` (both coefficient leaves), `max_local_time` =
+float32(2·map_max·√2·N) = 2780457/16384, `max_capacity`; the action spec with maximum `num_customers + 1`.  (All leaves are in
+the generated table; every adapter configuration is compared at run time by the `multi_cvrp.spec` op.) -/
+theorem multicvrp_obsSpec_generated :
+    prefixed "observation_spec." (obsSpec ⟨6, 20, true⟩ 2 lim6x2 (2780457 / 16384)) = declared "multicvrp-6x2" "observation_spec." ∧
+    [("action_spec", actionSpec ⟨6, 20, true⟩ 2)] = declared "multicvrp-6x2" "action_spec" ∧
+    [("reward_spec", rewardSpec)] = declared "multicvrp-6x2" "reward_spec" ∧
+    [("discount_spec", discountSpec)] = declared "multicvrp-6x2" "discount_spec" := by
+  refine ⟨by decide +kernel, by decide +kernel, by decide, by decide⟩
+
+/-- the invariant behind the membership theorems — `BInv c L` (problem data in the generator's ranges, capacities in
+`[0, max_capacity]`, local times at most `(step_count − 1)·dmax`) and the array shapes `ShapeInv` — is established by `reset`
+for EVERY draw of the generator's ranges (`validDrawS`: `validDrawB` + the lengths of the window / coefficient arrays), for
+every raw draw of the PRNG in exact arithmetic, and preserved by EVERY step with one action per vehicle (any naturals: in
+range or not, legal or not, MID or LAST) under a rounding that is monotone and fixes 0 and the multiples of `dmax` (`RndOK`:
+`id`; `Jx.roundF32` for a `dmax` with a short significand, `multicvrp_roundF32_rndOK`) and a distance matrix within `[0, dmax]` -/
+theorem multicvrp_specInv_invariant (c : Cfg) (nV : Nat) (L : Lim) :
+    (∀ d, validDrawS c L d → SpecInv c nV L (reset c nV L.demandMax L.windowLen d).1) ∧
+    (∀ (rnd : Rat → Rat) (D : Dist) (s : State) (a : List Nat) (K : Nat), RndOK rnd L.dmax K → s.stepCount ≤ K →
+      DistOK L D → SpecInv c nV L s → a.length = nV → SpecInv c nV L (step rnd c D s a).1) :=
+  ⟨fun d h => MultiCVRP.reset_specInv c nV L d h,
+   fun rnd D s a K hr hk hD h ha => MultiCVRP.step_specInv rnd c nV L D s a K hr hk hD h ha⟩
+
+/-- the `reset` observation (any number ≥ 1 of vehicles, any draw of the generator's ranges) is accepted by
+`observation_spec.validate`, provided the constructor's derived maxima are consistent (`DeclOK`: `customer_demand_max ≤
+max_capacity`, `0 ≤ time_window_length`, `early_coef_rand[1] ≤ late_coef_rand[1]` — the spec declares the LATE maximum for both
+coefficient leaves —, `2·N·dmax ≤ max_local_time`) -/
+theorem multicvrp_reset_obs_valid (c : Cfg) (nV : Nat) (hV : 0 < nV) (L : Lim) (maxLocal : Rat)
+    (hdecl : DeclOK c L maxLocal) (d : Draw) (h : validDrawS c L d) :
+    (obsSpec c nV L maxLocal).valid (toNValue (reset c nV L.demandMax L.windowLen d).2.obs) = true :=
+  MultiCVRP.reset_obs_valid c nV hV L maxLocal hdecl d h
+
+/-- … in particular for every RAW draw of the PRNG (unit uniforms and `randint` values, `validRaw`) in exact arithmetic:
+the generator's own arithmetic (`uniform(minval, maxval)`, the int16 demand scaling) keeps the arrays in their ranges -/
+theorem multicvrp_reset_obs_valid_raw (c : Cfg) (nV : Nat) (hV : 0 < nV) (g : GenCfg) (dmax maxLocal : Rat)
+    (hg : GenOK c nV g) (hdm : 0 ≤ dmax) (hdecl : DeclOK c (genLim g dmax) maxLocal) (r : RawDraw) (hr : validRaw c g r) :
+    (obsSpec c nV (genLim g dmax) maxLocal).valid
+      (toNValue (reset c nV g.demandMax g.windowLen (drawOfRaw id c nV g r)).2.obs) = true :=
+  MultiCVRP.reset_obs_valid c nV hV (genLim g dmax) maxLocal hdecl _
+    ⟨MultiCVRP.drawOfRaw_validDrawB c nV g r dmax hg hdm hr, by simp [drawOfRaw, hr.2.2.1],
+     by simp [drawOfRaw, hr.2.2.2.1], by simp [drawOfRaw, hr.2.2.2.2.1]⟩
+
+/-- the observation of EVERY `step` with one action per vehicle — any naturals (node indices or not, legal or not), MID or
+LAST, either reward function — from every state with the invariant that has not timed out (`step_count ≤ 2·N`) -/
+theorem multicvrp_step_obs_valid (rnd : Rat → Rat) (c : Cfg) (nV : Nat) (hV : 0 < nV) (L : Lim) (maxLocal : Rat)
+    (hdecl : DeclOK c L maxLocal) (D : Dist) (s : State) (a : List Nat)
+    (hr : RndOK rnd L.dmax (2 * c.numCustomers)) (hD : DistOK L D) (h : SpecInv c nV L s)
+    (hk : s.stepCount ≤ 2 * c.numCustomers) (ha : a.length = nV) :
+    (obsSpec c nV L maxLocal).valid (toNValue (step rnd c D s a).2.obs) = true :=
+  MultiCVRP.step_obs_valid rnd c nV hV L maxLocal hdecl D s a hr hD h hk ha
+
+/-- EVERY rounding function (float32 included), every distance matrix, every step count: all leaves but
+`vehicles.local_times` are members unconditionally (from `SInv` — preserved by every step for every rounding,
+`multicvrp_step_sInv` — and the shapes); the observation is a member as soon as the new local times lie in
+`[0, max_local_time]` (which `multicvrp_step_obs_valid` derives from `RndOK`; without it the float32 accumulation can leave
+the proved interval: `multicvrp_local_times_roundF32_counterexample` above) -/
+theorem multicvrp_step_obs_valid_anyrnd (rnd : Rat → Rat) (c : Cfg) (nV : Nat) (hV : 0 < nV) (L : Lim) (maxLocal : Rat)
+    (hdecl : L.demandMax ≤ c.maxCap ∧ 0 ≤ L.windowLen ∧ L.coefEarlyMax ≤ L.coefLateMax) (D : Dist) (s : State)
+    (a : List Nat) (hS : SInv c L s) (hsh : ShapeInv c nV s) (ha : a.length = nV)
+    (hl : ∀ l ∈ (step rnd c D s a).1.localTimes, 0 ≤ l ∧ l ≤ maxLocal) :
+    (obsSpec c nV L maxLocal).valid (toNValue (step rnd c D s a).2.obs) = true :=
+  MultiCVRP.step_obs_valid_anyrnd rnd c nV hV L maxLocal hdecl D s a hS hsh ha hl
+
+/-- the float32 model (`rnd = Jx.roundF32`), `dmax = j · 2^sh` with a short significand (`2·N·j < 2^24`) -/
+theorem multicvrp_step_obs_valid_roundF32 (c : Cfg) (nV : Nat) (hV : 0 < nV) (L : Lim) (maxLocal : Rat)
+    (hdecl : DeclOK c L maxLocal) (D : Dist) (s : State) (a : List Nat) (j : Nat) (sh : Int)
+    (hdm : L.dmax = (j : Rat) * Jx.pow2 sh) (hs : -149 ≤ sh) (hj : 2 * c.numCustomers * j < 16777216) (hD : DistOK L D)
+    (h : SpecInv c nV L s) (hk : s.stepCount ≤ 2 * c.numCustomers) (ha : a.length = nV) :
+    (obsSpec c nV L maxLocal).valid (toNValue (step Jx.roundF32 c D s a).2.obs) = true :=
+  MultiCVRP.step_obs_valid Jx.roundF32 c nV hV L maxLocal hdecl D s a (hdm ▸ MultiCVRP.roundF32_rndOK j sh _ hs hj) hD h hk ha
+
+/-- WHOLE EPISODES: along the rollout (`Ep.rollout` = the L1 step iterated) of ANY joint actions (one per vehicle) from
+`reset`, every observation emitted by one of the first `2·N` steps is a member of the spec; the first LAST timestep is among
+them (`step_count` starts at 1; step number `2·N` makes it `2·N + 1 > 2·N`, which is LAST: `multicvrp_last_at_limit`) -/
+theorem multicvrp_rollout_obs_valid (rnd : Rat → Rat) (c : Cfg) (nV : Nat) (hV : 0 < nV) (L : Lim) (maxLocal : Rat)
+    (hdecl : DeclOK c L maxLocal) (D : Dist) (hr : RndOK rnd L.dmax (2 * c.numCustomers)) (hD : DistOK L D)
+    (d : Draw) (hd : validDrawS c L d) (as : List (List Nat)) (has : ∀ a ∈ as, a.length = nV) (j : Nat)
+    (hj : j < 2 * c.numCustomers) (e : State × TimeStep Obs)
+    (he : (Ep.rollout (fun s a => step rnd c D s a) (reset c nV L.demandMax L.windowLen d).1 as)[j]? = some e) :
+    (obsSpec c nV L maxLocal).valid (toNValue e.2.obs) = true :=
+  MultiCVRP.rollout_obs_valid rnd c nV hV L maxLocal hdecl D hr hD d hd as has j hj e he
+
+/-- what membership means (so the theorems above are not hollow): `validate` accepts an observation ONLY IF the arrays have
+the declared shapes and every value lies in its declared range -/
+theorem multicvrp_obs_valid_only (c : Cfg) (nV : Nat) (L : Lim) (maxLocal : Rat) (o : Obs)
+    (h : (obsSpec c nV L maxLocal).valid (toNValue o) = true) :
+    shape2 o.coords = [c.numCustomers + 1, 2] ∧ (∀ x ∈ o.coords.flatten, 0 ≤ x ∧ x ≤ L.mapMax) ∧
+    IVecIn o.demands (c.numCustomers + 1) c.maxCap ∧
+    VecIn o.winStart (c.numCustomers + 1) (L.maxStart + L.windowLen) ∧
+    VecIn o.winEnd (c.numCustomers + 1) (L.maxStart + L.windowLen) ∧
+    VecIn o.coefEarly (c.numCustomers + 1) L.coefLateMax ∧ VecIn o.coefLate (c.numCustomers + 1) L.coefLateMax ∧
+    shape2 o.vehCoords = [nV, 2] ∧ (∀ x ∈ o.vehCoords.flatten, 0 ≤ x ∧ x ≤ L.mapMax) ∧
+    VecIn o.localTimes nV maxLocal ∧ IVecIn o.capacities nV c.maxCap ∧ shape2 o.mask = [nV, c.numCustomers + 1] :=
+  MultiCVRP.obs_valid_only c nV L maxLocal o h
+
+/-- the running example (3 customers, 2 vehicles, after one step) satisfies the invariant and `DeclOK` with
+`max_local_time = 9 = 2·3·(3/2)`; its observation and the one after a further step are members; membership FAILS for a local
+time beyond the maximum, a demand above the capacity, and under another number of vehicles -/
+example : SpecInv MultiCVRP.exampleCfg 2 exampleLim MultiCVRP.exampleState ∧ DeclOK MultiCVRP.exampleCfg exampleLim 9 ∧
+    DistOK exampleLim MultiCVRP.exampleDist ∧
+    (obsSpec MultiCVRP.exampleCfg 2 exampleLim 9).valid (toNValue (stateToObs MultiCVRP.exampleState)) = true ∧
+    (obsSpec MultiCVRP.exampleCfg 2 exampleLim 9).valid
+      (toNValue (step id MultiCVRP.exampleCfg MultiCVRP.exampleDist MultiCVRP.exampleState [0, 3]).2.obs) = true ∧
+    (obsSpec MultiCVRP.exampleCfg 2 exampleLim 9).valid
+      (toNValue { stateToObs MultiCVRP.exampleState with localTimes := [19 / 2, 0] }) = false ∧
+    (obsSpec MultiCVRP.exampleCfg 2 exampleLim 9).valid
+      (toNValue { stateToObs MultiCVRP.exampleState with demands := [0, 6, 0, 3] }) = false ∧
+    (obsSpec MultiCVRP.exampleCfg 3 exampleLim 9).valid (toNValue (stateToObs MultiCVRP.exampleState)) = false := by
+  decide +kernel
+
+/-- reward and discount of every `step` (ALL states, ALL joint actions, every rounding, both reward functions) and of `reset`
+are accepted by `reward_spec` (Array((), float)) and `discount_spec` (BoundedArray((), float, 0, 1)) -/
+theorem multicvrp_reward_discount_valid (rnd : Rat → Rat) (c : Cfg) (D : Dist) (s : State) (a : List Nat) (nV : Nat)
+    (dm : Int) (wl : Rat) (d : Draw) :
+    rewardSpec.valid (scalarArr (step rnd c D s a).2.reward) = true ∧
+    discountSpec.valid (scalarArr (step rnd c D s a).2.discount) = true ∧
+    rewardSpec.valid (scalarArr (reset c nV dm wl d).2.reward) = true ∧
+    discountSpec.valid (scalarArr (reset c nV dm wl d).2.discount) = true :=
+  ⟨(MultiCVRP.step_reward_discount_valid rnd c D s a).1, (MultiCVRP.step_reward_discount_valid rnd c D s a).2,
+   (MultiCVRP.reset_reward_discount_valid c nV dm wl d).1, (MultiCVRP.reset_reward_discount_valid c nV dm wl d).2⟩
+
+/-- `action_spec.generate_value()` = all zeros (every vehicle to the depot): the action spec is well-formed, the generated
+value is a member, and `step` answers it with a protocol-conform timestep whose observation is a member of the observation
+spec -/
+theorem multicvrp_accepts_generate_value (rnd : Rat → Rat) (c : Cfg) (nV : Nat) (hV : 0 < nV)
+    (hbig : c.numCustomers + 1 ≤ 32767) (L : Lim) (maxLocal : Rat) (hdecl : DeclOK c L maxLocal) (D : Dist) (s : State)
+    (hr : RndOK rnd L.dmax (2 * c.numCustomers)) (hD : DistOK L D) (h : SpecInv c nV L s)
+    (hk : s.stepCount ≤ 2 * c.numCustomers) :
+    (actionSpec c nV).WF = true ∧ (actionSpec c nV).valid (actionSpec c nV).generate = true ∧
+    (actionSpec c nV).generate = actionArr nV (List.replicate nV 0) ∧
+    StepOK none false (step rnd c D s (List.replicate nV 0)).2 = true ∧
+    (obsSpec c nV L maxLocal).valid (toNValue (step rnd c D s (List.replicate nV 0)).2.obs) = true :=
+  MultiCVRP.accepts_generate_value rnd c nV hV hbig L maxLocal hdecl D s hr hD h hk
+
+/-- membership in `action_spec` is "one value in `[0, num_customers + 1]` per vehicle" — the value `num_customers + 1` is a
+member although it is not a node index (see `multicvrp_spec_max_witness`) -/
+theorem multicvrp_action_spec_iff (c : Cfg) (nV : Nat) (a : List Nat) :
+    (actionSpec c nV).valid (actionArr nV a) = true ↔ a.length = nV ∧ ∀ x ∈ a, x ≤ c.numCustomers + 1 :=
+  MultiCVRP.actionSpec_valid_iff c nV a
 end Props.C01
 
 namespace Props.C04
